@@ -3,7 +3,7 @@
 Instrumented queue / event objects make every operation of the collector thread (flag test, pop),
 of each worker (put) and of the main thread (set) wait for the scheduler, so that an interleaving
 chosen from the Coq model is executed on the real class. No hook in /repo is needed."""
-import queue, threading, time
+import os, queue, threading, time
 
 
 class Sched:
@@ -57,25 +57,35 @@ class Sched:
 
 
 def replay(schedule, k):
-    """schedule: list of ["W", i] | ["C"] | ["M"]; k results 0..k-1. Returns the collected list."""
-    from transposon.overlap_manager import _ProgressBars
+    """schedule: list of ["W", i] | ["C"] | ["M"]; k results 0..k-1.
+    Drives the real OverlapManager.calculate_overlap(): its pool is replaced by scripted workers that only
+    put their result, its queues / stop event by gated ones. Returns the list calculate_overlap returned."""
+    import tempfile, shutil
+    import transposon.overlap_manager as om_mod
     from transposon.overlap import OverlapResult
     sc = Sched()
-    inner = queue.Queue()
     tl = threading.local()
+    ctx = {"pb": None}
 
     def me():
         return getattr(tl, "actor", None)
 
+    def is_chrome():
+        pb = ctx["pb"]
+        return pb is not None and threading.current_thread() is pb._chrome_thread
+
     class GQ:
-        """result queue: gated for the collector thread and the workers"""
+        """queue: gated for the collector thread and the scripted workers, direct for everybody else"""
+        def __init__(self):
+            self.inner = queue.Queue()
+
         def get(self, block=True, timeout=None):
-            a = me() or ("C" if threading.current_thread() is pb._chrome_thread else None)
+            a = me() or ("C" if is_chrome() else None)
             if a is None:
-                return inner.get(block, timeout)
+                return self.inner.get(block, timeout)
             sc.gate(a, "get")
             try:
-                return inner.get_nowait()       # an empty queue = the timeout expired
+                return self.inner.get_nowait()       # an empty queue = the timeout expired
             finally:
                 sc.op_done(a)
 
@@ -84,22 +94,27 @@ def replay(schedule, k):
 
         def put(self, x, *a_, **k_):
             a = me()
+            if a is None:
+                self.inner.put(x); return
             sc.gate(a, "put")
-            inner.put(x)
+            self.inner.put(x)
             sc.op_done(a)
 
+        def put_nowait(self, x):
+            self.put(x)
+
         def empty(self):
-            return inner.empty()
+            return self.inner.empty()
 
         def qsize(self):
-            return inner.qsize()
+            return self.inner.qsize()
 
     class GE:
         def __init__(self):
             self.flag = False
 
         def is_set(self):
-            if threading.current_thread() is not pb._chrome_thread:
+            if not is_chrome():
                 return self.flag
             sc.gate("C", "is_set")
             v = self.flag
@@ -121,62 +136,109 @@ def replay(schedule, k):
         def wait(self, timeout=None):
             return self.flag
 
-    pb = _ProgressBars(0, k, GQ(), queue.Queue())
-    pb.stop_event = GE()
     results = [OverlapResult(genes_processed=i, overlap_file="f%d" % i, gene_file="g%d" % i, te_file="t%d" % i) for i in range(k)]
-    pb.start()
-    orig_target_done = threading.Event()
 
-    def watch():
-        pb._chrome_thread.join()
-        with sc.cv:
-            sc.finished.add("C")
-            sc.cv.notify_all()
-    threading.Thread(target=watch, daemon=True).start()
+    class FakePool:
+        def __init__(self, processes=None):
+            pass
 
-    def worker(i):
-        tl.actor = ("W", i)
-        pb.result_queue.put(results[i])
-        with sc.cv:
-            sc.finished.add(("W", i)); sc.cv.notify_all()
+        def __enter__(self):
+            return self
 
-    def main_thread():
-        tl.actor = "M"
-        pb.stop()
-        with sc.cv:
-            sc.finished.add("M"); sc.cv.notify_all()
-        orig_target_done.set()
-    wthreads = [threading.Thread(target=worker, args=(i,), daemon=True) for i in range(k)]
-    for t in wthreads:
-        t.start()
-    mth = threading.Thread(target=main_thread, daemon=True)
-    unput = list(range(k))
-    m_started = False
-    executed = []
-    for a in schedule:
-        if a[0] == "W":
-            if a[1] < len(unput):
-                i = unput.pop(a[1])
-                ok = sc.step(("W", i))
-                executed.append(["W", i, ok])
-        elif a[0] == "M":
-            if not unput and not m_started:
-                m_started = True
-                mth.start()
-                ok = sc.step("M")
-                executed.append(["M", ok])
-        else:
-            ok = sc.step("C", timeout=2.0)
-            executed.append(["C", ok])
-    # completion: everything still pending runs freely
-    sc.free_run()
-    if not m_started:
-        for t in wthreads:
-            t.join(timeout=10)
+        def __exit__(self, *a):
+            return False
+
+        def map(self, func, jobs):
+            ths = []
+            for i, job in enumerate(jobs):
+                def work(i=i, job=job):
+                    tl.actor = ("W", i)
+                    job.result_queue.put(results[i])
+                    with sc.cv:
+                        sc.finished.add(("W", i)); sc.cv.notify_all()
+                t = threading.Thread(target=work, daemon=True); t.start(); ths.append(t)
+            for t in ths:
+                t.join()
+            return [None] * len(ths)
+
+    class FakeMgr:
+        def Queue(self, *a, **k_):
+            return GQ()
+
+    class FakeMP:
+        managers = om_mod.multiprocessing.managers
+        def Manager(self):
+            return FakeMgr()
+        def Event(self):
+            return threading.Event()
+        def cpu_count(self):
+            return 2
+        def Pool(self, processes=None):
+            return FakePool(processes)
+
+    real_mp = om_mod.multiprocessing
+    d = tempfile.mkdtemp(prefix="vh_col_")
+    returned = {"list": None, "exc": None}
+    main_done = threading.Event()
+    try:
+        om_mod.multiprocessing = FakeMP()
+        mgr = om_mod.OverlapManager([("g", "t")], d, range(0, 1))
+        def fake_jobs():
+            for i in range(k):
+                yield om_mod._OverlapJob(gene_uid="c%d" % i, gene_path="g%d" % i, te_path="t%d" % i,
+                                         output_filepath=os.path.join(d, "nonexistent_%d.h5" % i), window_range=range(0, 1),
+                                         gene_names=["x"], progress_queue=mgr._progress_queue, result_queue=mgr._result_queue,
+                                         stop_event=None)
+        mgr._produce_jobs = fake_jobs
+        orig_new = mgr._new_progress_bars
+        def new_pb(jobs):
+            pb = orig_new(jobs)
+            pb.stop_event = GE()
+            ctx["pb"] = pb
+            def watch():
+                while pb._chrome_thread is None or pb._chrome_thread.ident is None:
+                    time.sleep(0.001)
+                pb._chrome_thread.join()
+                with sc.cv:
+                    sc.finished.add("C"); sc.cv.notify_all()
+            threading.Thread(target=watch, daemon=True).start()
+            return pb
+        mgr._new_progress_bars = new_pb
+
+        def main_thread():
+            tl.actor = "M"
+            try:
+                returned["list"] = mgr.calculate_overlap()
+            except BaseException as e:   # noqa
+                returned["exc"] = "%s: %s" % (type(e).__name__, e)
+            with sc.cv:
+                sc.finished.add("M"); sc.cv.notify_all()
+            main_done.set()
+        mth = threading.Thread(target=main_thread, daemon=True)
         mth.start()
-    orig_target_done.wait(timeout=20)
-    collected = [r.genes_processed for r in pb.results]
-    return {"collected": collected, "terminated": orig_target_done.is_set(), "executed": executed}
+        unput = list(range(k))
+        m_done = False
+        executed = []
+        for a in schedule:
+            if a[0] == "W":
+                if a[1] < len(unput):
+                    i = unput.pop(a[1])
+                    executed.append(["W", i, sc.step(("W", i))])
+            elif a[0] == "M":
+                if not unput and not m_done:
+                    m_done = True
+                    executed.append(["M", sc.step("M")])
+            else:
+                executed.append(["C", sc.step("C", timeout=2.0)])
+        sc.free_run()
+        main_done.wait(timeout=20)
+        lst = returned["list"]
+        collected = [r.genes_processed for r in lst] if lst is not None else []
+        return {"collected": collected, "terminated": main_done.is_set() and returned["exc"] is None, "executed": executed,
+                "exc": returned["exc"]}
+    finally:
+        om_mod.multiprocessing = real_mp
+        shutil.rmtree(d, ignore_errors=True)
 
 
 def op_replay(req):
